@@ -110,6 +110,18 @@ Fixpoint mono_subst (F : nat -> poly) (m : mono) (i : nat) : poly :=
 Definition psubst (F : nat -> poly) (p : poly) : poly :=
   flat_map (fun t => pscale (fst t) (mono_subst F (snd t) 0)) p.
 
+(* the same with intermediate normalisation (much smaller intermediate results) *)
+Definition pmuln (p q : poly) : poly := pnorm (pmul p q).
+Fixpoint ppown (p : poly) (n : nat) : poly :=
+  match n with O => pconst 1 | S n' => pmuln p (ppown p n') end.
+Fixpoint mono_substn (F : nat -> poly) (m : mono) (i : nat) : poly :=
+  match m with
+  | [] => pconst 1
+  | e :: m' => match e with O => mono_substn F m' (S i) | _ => pmuln (ppown (F i) e) (mono_substn F m' (S i)) end
+  end.
+Definition psubstn (F : nat -> poly) (p : poly) : poly :=
+  pnorm (flat_map (fun t => pscale (fst t) (mono_substn F (snd t) 0)) p).
+
 Lemma mono_cmp_eq : forall a b, mono_cmp a b = Eq -> a = b.
 Proof.
   induction a as [|x a IH]; intros [|y b] H; simpl in H; try discriminate; try reflexivity.
@@ -481,6 +493,34 @@ Section Eval.
   Proof.
     induction p as [|t p IH]; [reflexivity|].
     unfold psubst in *. simpl flat_map. rewrite peval_app, IH, peval_pscale, peval_mono_subst.
+    simpl peval. unfold teval. reflexivity.
+  Qed.
+
+  Lemma peval_pmuln p q pt : peval (pmuln p q) pt == peval p pt * peval q pt.
+  Proof. unfold pmuln. rewrite peval_pnorm. apply peval_pmul. Qed.
+
+  Lemma peval_ppown p n pt : peval (ppown p n) pt == rpow (peval p pt) n.
+  Proof.
+    induction n as [|n IH]; simpl ppown.
+    - rewrite peval_pconst, (morph1 Rphi). reflexivity.
+    - rewrite peval_pmuln, IH. reflexivity.
+  Qed.
+
+  Lemma peval_mono_substn F m : forall i pt,
+      peval (mono_substn F m i) pt == meval m (fun j => peval (F j) pt) i.
+  Proof.
+    induction m as [|e m IH]; intros i pt; simpl mono_substn; simpl meval.
+    - rewrite peval_pconst. apply (morph1 Rphi).
+    - destruct e as [|e].
+      + rewrite IH. simpl. ring.
+      + rewrite peval_pmuln, peval_ppown, IH. reflexivity.
+  Qed.
+
+  Theorem peval_psubstn F p pt : peval (psubstn F p) pt == peval p (fun j => peval (F j) pt).
+  Proof.
+    unfold psubstn. rewrite peval_pnorm.
+    induction p as [|t p IH]; [reflexivity|].
+    simpl flat_map. rewrite peval_app, IH, peval_pscale, peval_mono_substn.
     simpl peval. unfold teval. reflexivity.
   Qed.
 
